@@ -4,8 +4,20 @@ import os
 import subprocess
 
 VERIF = os.path.dirname(os.path.dirname(os.path.abspath(__file__)))
-WORK = os.path.join(VERIF, "work")
+# The registered checks always run against /repo. VERIF_REPO=<scratch worktree> is only for trying seeded
+# changes without touching /repo (lib/mutest_alt.sh): a copy of the harness is pointed at that tree and all
+# build output goes to work/alt.
+REPO = os.environ.get("VERIF_REPO", "/repo")
+ALT = REPO != "/repo"
+WORK = os.path.join(VERIF, "work", "alt") if ALT else os.path.join(VERIF, "work")
 HARNESS = os.path.join(VERIF, "harness")
+if ALT:
+    os.makedirs(WORK, exist_ok=True)
+    _alt_h = os.path.join(WORK, "harness")
+    subprocess.run(["rsync", "-a", "--delete", "--exclude", "target", HARNESS + "/", _alt_h + "/"], check=True)
+    _ct = open(os.path.join(_alt_h, "Cargo.toml")).read().replace('path = "/repo/sudachi"', 'path = "%s/sudachi"' % REPO)
+    open(os.path.join(_alt_h, "Cargo.toml"), "w").write(_ct)
+    HARNESS = _alt_h
 TARGET = "x86_64-unknown-linux-gnu"
 
 _done = {}
@@ -71,17 +83,17 @@ def _ensure(build):
         return _run(["cargo", "+nightly", "miri", "setup"], HARNESS, _env(), "build-miri.log")
     if build == "cli":
         return _run(["cargo", "build", "--offline", "--release", "-p", "sudachi-cli",
-                     "--target-dir", os.path.join(WORK, "target-repo")], "/repo", _env(), "build-cli.log")
+                     "--target-dir", os.path.join(WORK, "target-repo")], REPO, _env(), "build-cli.log")
     if build == "py":
         ok, why = _run(["cargo", "build", "--offline", "--release", "-p", "sudachipy",
-                        "--target-dir", os.path.join(WORK, "target-repo")], "/repo",
+                        "--target-dir", os.path.join(WORK, "target-repo")], REPO,
                        _env({"PYO3_PYTHON": "/usr/bin/python3"}), "build-py.log")
         if not ok:
             return ok, why
         # python package = copy of the repository's py_src + the freshly built extension module
         pkg = os.path.join(WORK, "pypkg")
         subprocess.run(["rm", "-rf", pkg])
-        subprocess.run(["cp", "-r", "/repo/python/py_src", pkg])
+        subprocess.run(["cp", "-r", os.path.join(REPO, "python", "py_src"), pkg])
         subprocess.run(["cp", binary("py"), os.path.join(pkg, "sudachipy", "sudachipy.cpython-311-x86_64-linux-gnu.so")])
         return True, ""
     return False, "unknown build " + build
@@ -94,10 +106,10 @@ def command(st, prop, tier, seed, shard, nshards, out):
     scratch = os.path.join(WORK, "scratch")
     if build == "miri":
         flags = "-Zmiri-disable-isolation -Zmiri-disable-stacked-borrows -Zmiri-ignore-leaks -Zmiri-seed=%d " % shard + st.get("miriflags", "")
-        env = _env({"MIRIFLAGS": flags})
+        env = _env({"MIRIFLAGS": flags, "VH_REPO": REPO})
         cmd = ["cargo", "+nightly", "miri", "run", "--offline", "--target-dir", os.path.join(WORK, "target-miri"), "--"] + args
         return cmd, env | {"VH_CWD": HARNESS}
-    env = _env({"VH_SCRATCH": scratch, "VH_CLI": binary("cli"), "VH_PYPKG": os.path.join(WORK, "pypkg"),
+    env = _env({"VH_REPO": REPO, "VH_SCRATCH": scratch, "VH_CLI": binary("cli"), "VH_PYPKG": os.path.join(WORK, "pypkg"),
                 "VH_PYDRIVER": os.path.join(VERIF, "py", "drive.py")})
     if build == "asan":
         env["ASAN_OPTIONS"] = "detect_leaks=0:halt_on_error=1:abort_on_error=0:exitcode=98"
